@@ -1,5 +1,171 @@
-(* C06 — Equal names denote equal arrays (placeholder for the naming model). *)
-From DA Require Import PyBase.
+(* C06 — Equal names denote equal arrays.
+   Statements only; model in theories/Names.v, proofs in theories/NamesFacts.v.
+
+   `name_of` / `token_of` build `_name` / `deterministic_token` exactly as the code does (stock tokenizer,
+   the Blockwise / Elemwise / Reduction / PartialReduce / FromArray overrides, the hand-built names of
+   Rechunk, FromArray regions and rechunks, Random, fused groups (= Gen), the RootAlias pin).  A child enters
+   its parent through its TOKEN.  `content_of` is what a node means (class, children's meanings, the
+   operands that determine shape / chunks / dtype / block values); the operands the real tokenizers omit
+   (name=/token= prefixes, _meta_provided / meta / reduced_meta) are absent from it.
+   Trusted base: H (md5 tokenize) and Hp (pickle hash) are injective; id() of live objects is injective;
+   leaf operands are atoms standing for dask's normalize_token output. *)
+From Coq Require Import ZArith List Bool.
+From DA Require Import Names NamesFacts.
+Import ListNotations.
 Open Scope Z_scope.
-Example C06_placeholder : zsum [1;2;3] = 6. Proof. reflexivity. Qed.
-Print Assumptions C06_placeholder.
+
+(* Equal names => equal meaning, for ALL expressions.  (Until /repo commit "fix: tokenize a Random expression by
+   its realization, not by the mutable generator" this needed the hypothesis `rng_fresh`: the stock token of a
+   Random node hashed the mutable rng operand in its state at tokenisation time — finding C06-A, now fixed; the
+   model follows the repaired Random.__dask_tokenize__ = H(type, _name) and the hypothesis is gone.) *)
+Theorem C06_name_injective :
+  forall (hash : Type) (H Hp : list (harg hash) -> hash) (addr : Z -> Z) (pfx_getitem : Z),
+    (forall a b, H a = H b -> a = b) -> (forall a b, Hp a = Hp b -> a = b) ->
+    (forall a b, addr a = addr b -> a = b) ->
+    forall e1 e2,
+      name_of hash H Hp addr pfx_getitem e1 = name_of hash H Hp addr pfx_getitem e2 ->
+      same_content e1 e2.
+Proof. exact name_injective. Qed.
+
+(* the parents' view: equal deterministic tokens => equal meaning (this is what makes the induction go) *)
+Theorem C06_token_injective :
+  forall (hash : Type) (H Hp : list (harg hash) -> hash) (addr : Z -> Z) (pfx_getitem : Z),
+    (forall a b, H a = H b -> a = b) -> (forall a b, Hp a = Hp b -> a = b) ->
+    (forall a b, addr a = addr b -> a = b) ->
+    forall e1 e2,
+      token_of hash H Hp addr pfx_getitem e1 = token_of hash H Hp addr pfx_getitem e2 ->
+      same_content e1 e2.
+Proof. exact token_injective. Qed.
+
+(* Regression statement for finding C06-A (FIXED).  It used to be C06_random_shared_rng_refuted /
+   C06_name_injective_refuted:  rng = da.random.default_rng(0); r1 = rng.random(6, chunks=3);
+   r2 = rng.random(6, chunks=3) gave (r1 + 1).name == (r2 + 1).name.  Now: two draws from ONE generator
+   (draw d = Random node drawn in rng state d, whatever the state of the generator later; plus1 x = x + 1)
+   have different names AND different parent-visible tokens, and so have their parents. *)
+Theorem C06_random_shared_rng_distinct :
+  forall (hash : Type) (H Hp : list (harg hash) -> hash) (addr : Z -> Z) (pfx_getitem : Z),
+    (forall a b, H a = H b -> a = b) -> (forall a b, Hp a = Hp b -> a = b) ->
+    (forall a b, addr a = addr b -> a = b) ->
+    forall d1 d2, d1 <> d2 ->
+    name_of hash H Hp addr pfx_getitem (draw d1) <> name_of hash H Hp addr pfx_getitem (draw d2) /\
+    token_of hash H Hp addr pfx_getitem (draw d1) <> token_of hash H Hp addr pfx_getitem (draw d2) /\
+    name_of hash H Hp addr pfx_getitem (plus1 (draw d1)) <> name_of hash H Hp addr pfx_getitem (plus1 (draw d2)) /\
+    token_of hash H Hp addr pfx_getitem (plus1 (draw d1)) <> token_of hash H Hp addr pfx_getitem (plus1 (draw d2)).
+Proof. exact random_shared_rng_distinct. Qed.
+
+(* The operands the custom tokenizers OMIT are irrelevant to the meaning (and the prefix is still part of
+   the name, so `name=` keeps two otherwise equal nodes apart as graph keys). *)
+Theorem C06_blockwise_omitted_operands :
+  forall (hash : Type) (H Hp : list (harg hash) -> hash) (addr : Z -> Z)
+         (pfx_getitem p p' m m' f oi dt adj na al cc kw : Z) (ops : args),
+    token_of hash H Hp addr pfx_getitem (Blockwise p f oi dt adj na al cc kw m ops) =
+    token_of hash H Hp addr pfx_getitem (Blockwise p' f oi dt adj na al cc kw m' ops) /\
+    content_of (Blockwise p f oi dt adj na al cc kw m ops) = content_of (Blockwise p' f oi dt adj na al cc kw m' ops) /\
+    (name_of hash H Hp addr pfx_getitem (Blockwise p f oi dt adj na al cc kw m ops) =
+     name_of hash H Hp addr pfx_getitem (Blockwise p' f oi dt adj na al cc kw m' ops) <-> p = p').
+Proof. exact blockwise_omitted. Qed.
+
+Theorem C06_reduction_omitted_operands :
+  forall (hash : Type) (H Hp : list (harg hash) -> hash) (addr : Z -> Z) (pfx_getitem c p p' m m' : Z)
+         (e : expr) (ch ag ax kd dt se cb cc os : Z) (w : args),
+    token_of hash H Hp addr pfx_getitem (Reduction c p e ch ag ax kd dt se cb cc os w m) =
+    token_of hash H Hp addr pfx_getitem (Reduction c p' e ch ag ax kd dt se cb cc os w m') /\
+    content_of (Reduction c p e ch ag ax kd dt se cb cc os w m) =
+    content_of (Reduction c p' e ch ag ax kd dt se cb cc os w m').
+Proof. exact reduction_omitted. Qed.
+
+Theorem C06_partial_reduce_omitted_operands :
+  forall (hash : Type) (H Hp : list (harg hash) -> hash) (addr : Z -> Z) (pfx_getitem p p' m m' : Z)
+         (e : expr) (f se kd dt : Z),
+    token_of hash H Hp addr pfx_getitem (PartialReduce p e f se kd dt m) =
+    token_of hash H Hp addr pfx_getitem (PartialReduce p' e f se kd dt m') /\
+    content_of (PartialReduce p e f se kd dt m) = content_of (PartialReduce p' e f se kd dt m').
+Proof. exact partial_omitted. Qed.
+
+(* De-duplication by name never substitutes a different computation: after ANY history of
+   Build (singleton registry) / Lower (_LOWER_CACHE) / Merge (graph merging across collections) / Drop
+   (weak references dying), every entry of every store holds the meaning of any expression of that name ... *)
+Theorem C06_cache_invariant :
+  forall (hash : Type) (H Hp : list (harg hash) -> hash) (addr : Z -> Z) (pfx_getitem : Z),
+    (forall a b, H a = H b -> a = b) -> (forall a b, Hp a = Hp b -> a = b) ->
+    (forall a b, addr a = addr b -> a = b) ->
+    forall (name_eqb : name hash -> name hash -> bool) (ops : list (cache_op hash)),
+      state_ok hash H Hp addr pfx_getitem (run hash H Hp addr pfx_getitem name_eqb ops).
+Proof. exact cache_invariant. Qed.
+
+(* ... so whatever a hit hands back is the meaning of the expression that was asked for *)
+Theorem C06_cache_dedup_sound :
+  forall (hash : Type) (H Hp : list (harg hash) -> hash) (addr : Z -> Z) (pfx_getitem : Z),
+    (forall a b, H a = H b -> a = b) -> (forall a b, Hp a = Hp b -> a = b) ->
+    (forall a b, addr a = addr b -> a = b) ->
+    forall name_eqb : name hash -> name hash -> bool,
+    (forall a b, name_eqb a b = true <-> a = b) ->
+    forall (ops : list (cache_op hash)) (e : expr) (c : content),
+      (lookup hash name_eqb (name_of hash H Hp addr pfx_getitem e)
+         (registry hash (run hash H Hp addr pfx_getitem name_eqb ops)) = Some c \/
+       lookup hash name_eqb (name_of hash H Hp addr pfx_getitem e)
+         (lowered hash (run hash H Hp addr pfx_getitem name_eqb ops)) = Some c \/
+       lookup hash name_eqb (name_of hash H Hp addr pfx_getitem e)
+         (graph hash (run hash H Hp addr pfx_getitem name_eqb ops)) = Some c) ->
+      c = content_of e.
+Proof. exact cache_dedup_sound. Qed.
+
+(* pinned names (RootAlias) and exact names (FromArray regions / rechunks) never enter the registry or
+   the lowering cache *)
+Theorem C06_pins_never_cached :
+  forall (hash : Type) (H Hp : list (harg hash) -> hash) (addr : Z -> Z) (pfx_getitem : Z)
+         (name_eqb : name hash -> name hash -> bool) (st : state hash) (e : expr),
+    opts_out e = true ->
+    step hash H Hp addr pfx_getitem name_eqb st (Build hash e) = st /\
+    step hash H Hp addr pfx_getitem name_eqb st (Lower hash e) = st.
+Proof. exact opted_out_never_cached. Qed.
+
+(* ---- the hypotheses are satisfiable, on non-trivial inputs ---- *)
+Example C06_hash_hypotheses_satisfiable :
+  (forall a b, FHm a = FHm b -> a = b) /\ (forall a b, FHp a = FHp b -> a = b) /\
+  (forall a b : Z, (fun o => o) a = (fun o => o) b -> a = b) /\
+  (forall a b, fname_eqb a b = true <-> a = b).
+Proof. repeat split; try apply FHm_inj; try apply FHp_inj; try apply fname_eqb_spec; auto. Qed.
+
+(* from_array(x)[1:5] pushed into the source, rechunked, summed (Reduction -> Blockwise + PartialReduce),
+   plus a random array whose generator has moved on since the draw (state 7 -> 9) *)
+Definition ex_src : expr := Gen 1 10 (ALit 100 (ALit 101 ANil)).
+Definition ex_region : expr := SrcRegion ex_src 0 200 200.
+Definition ex_sum : expr := Reduction 2 11 (Rechunk ex_region 300 0 0 0 0) 400 401 402 0 403 404 0 1 1 ANil 0.
+Definition ex_tree : expr :=
+  Gen 3 12 (AChild ex_sum (AChild (Random 4 7 9 13 500 501 0 ANil) (ALit 1 ANil))).
+
+(* executable instance: equal sub-trees get equal names, the name= prefix separates, meta does not,
+   two draws from one generator are told apart, also by their parents (C06-A fixed) *)
+Example C06_exec_examples :
+  zlist_eqb (xname ex_tree) (xname ex_tree) = true /\
+  zlist_eqb (xname (Blockwise 1 2 3 4 5 6 7 8 9 0 ANil)) (xname (Blockwise 1 2 3 4 5 6 7 8 9 1 ANil)) = true /\
+  zlist_eqb (xname (Blockwise 1 2 3 4 5 6 7 8 9 0 ANil)) (xname (Blockwise 2 2 3 4 5 6 7 8 9 0 ANil)) = false /\
+  zlist_eqb (xtoken (Blockwise 1 2 3 4 5 6 7 8 9 0 ANil)) (xtoken (Blockwise 2 2 3 4 5 6 7 8 9 0 ANil)) = true /\
+  zlist_eqb (xname (draw 0)) (xname (draw 1)) = false /\
+  zlist_eqb (xname (plus1 (draw 0))) (xname (plus1 (draw 1))) = false /\
+  zlist_eqb (xtoken (draw 0)) (xtoken (draw 1)) = false /\
+  zlist_eqb (xname (Rechunk ex_src 1 0 0 0 0)) (xname (TasksRechunk ex_src 1 0 0)) = false /\
+  names_pattern_ok [(ex_src, 1, 1); (ex_region, 2, 2); (ex_sum, 3, 3); (ex_sum, 3, 3); (RootAlias ex_sum ex_tree, 4, 5); (ex_tree, 4, 4)] = true.
+Proof. vm_compute. repeat split. Qed.
+
+Example C06_cache_example :
+  let run' := run ftree FHm FHp (fun o => o) 0 fname_eqb in
+  let st := run' [Build ftree ex_tree; Lower ftree ex_sum; Merge ftree (RootAlias ex_sum ex_tree); Build ftree ex_tree;
+                  Drop ftree (name_of ftree FHm FHp (fun o => o) 0 ex_tree); Build ftree ex_region] in
+  length (registry ftree st) = 0%nat /\ length (lowered ftree st) = 1%nat /\ length (graph ftree st) = 4%nat /\
+  lookup ftree fname_eqb (name_of ftree FHm FHp (fun o => o) 0 ex_tree) (graph ftree st) = Some (content_of ex_tree).
+Proof. vm_compute. repeat split. Qed.
+
+Print Assumptions C06_name_injective.
+Print Assumptions C06_token_injective.
+Print Assumptions C06_random_shared_rng_distinct.
+Print Assumptions C06_blockwise_omitted_operands.
+Print Assumptions C06_reduction_omitted_operands.
+Print Assumptions C06_partial_reduce_omitted_operands.
+Print Assumptions C06_cache_invariant.
+Print Assumptions C06_cache_dedup_sound.
+Print Assumptions C06_pins_never_cached.
+Print Assumptions C06_hash_hypotheses_satisfiable.
+Print Assumptions C06_exec_examples.
+Print Assumptions C06_cache_example.
